@@ -1,0 +1,14 @@
+//go:build !verif
+
+package corebgp
+
+import (
+	"context"
+	"net"
+	"net/netip"
+)
+
+// verifDial is always nil without the "verif" build tag.
+var verifDial func(ctx context.Context, local, remote netip.Addr, port int) (net.Conn, error)
+
+func verifPoint(string) {}
